@@ -25,7 +25,49 @@ VEST_RULE = ("histories of cfevesting messages (create pool, withdraw, send, cre
 def vest(profile, nq, nt):
     return {"kind": "vest", "profile": profile, "n_quick": nq, "n_thorough": nt, "per_shard": 10}
 
+MINTER_RULE = ("validated emission configurations (1-5 periods of no-minting / linear / exponential-step type, amounts up to 10^30, "
+               "ns-precise and aligned start/end times, 0-18 digit multipliers) generated from (VERIF_SEED, index); each is run through the real "
+               "cfeminter.BeginBlocker under 2-3 different partitions of the same time span (regular, on/around period and step boundaries, random, "
+               "single jump); after every block the minted amount, minter state, state history, supply and the Inflation query are compared with "
+               "the Coq model; a separate malformed stream compares only the validation decision; non-trivial = something was minted; "
+               "distinct = distinct (configuration, final time)")
+
+def minter(nq, nt):
+    return {"kind": "minter", "profile": "", "n_quick": nq, "n_thorough": nt, "per_shard": 10}
+
 PROPS = {
+    "C02": {
+        "title": "Emission follows the configured schedule, independent of block cadence",
+        "model": "Minter.v: amount_to_mint, mint_rec (hand-over recursion), mint, begin_block, params_valid",
+        "runs": [minter(150, 6000)],
+        "preds": ["C02."],
+        "rule": MINTER_RULE,
+        "partial": ["the closed theorem 'sum over any partition = floor(cumulative schedule at T)' across several periods is assembled from the proved "
+                    "per-block theorems (growth of counters, counter depends on block time only, hand-over carries the fraction, carries telescope, "
+                    "linear/exponential monotonicity) but the final induction over the period list is not yet a single Coq theorem; the harness "
+                    "checks that statement on the implementation against an independent exact-rational schedule (C02.cumulative_equals_schedule) "
+                    "and across partitions (C02.partition_independent) on every run"],
+        "level_text": "Coq theorems over the executable minter model for every parameter set, state and block time: a block's amount is never negative "
+                      "and equals the growth of (finished periods' totals + current counter); inside a period the counter after a block is "
+                      "floor(schedule(now)+carry) whatever happened before (partition independence); hand-over writes the full counter to history and "
+                      "passes exactly the fractional remainder; carries telescope to floor of the exact sum; linear periods hit exactly their amount "
+                      "at the end and are monotone; exponential epoch sums are monotone. Model compared with the real BeginBlocker on 2-3 partitions "
+                      "per configuration on every run; cumulative vs an independent schedule oracle.",
+    },
+    "C19": {
+        "title": "Reported inflation equals the actual annualised emission rate",
+        "model": "Minter.v: calc_inflation, current_inflation",
+        "runs": [minter(150, 6000)],
+        "preds": ["C19."],
+        "rule": MINTER_RULE + "; C19 additionally compares the inflation reported after a block with what the next block inside the same period/step minted",
+        "partial": ["the numeric bound |minted - y*S*dt/year| <= tolerance is checked on the implementation per block pair (C19.rate_matches_emission); "
+                    "in Coq the rate is proved to be the period's annualised amount over supply (two truncations, bracketing inequality) and to use "
+                    "the same step amount as AmountToMint"],
+        "level_text": "Coq theorems: the reported rate is zero before the start, for no-minting and for an ended exponential period; for a linear period "
+                      "it is floor(floor(amount*year/period)/supply) with the bracketing inequality that ties rate*supply*period to amount*year; for "
+                      "an exponential-step period it is the current step's epoch amount (same recurrence as AmountToMint) annualised over supply. "
+                      "The Inflation query is compared with the model after every block and with the next block's actual mint.",
+    },
     "C05": {
         "title": "Vesting module account is always exactly backed by its pools",
         "model": "Vest.v: create_pool, withdraw_all, send_to_vesting_account, create_vesting_account, split/move, step, run",
